@@ -12,7 +12,12 @@
 //	T4 select             -> switch simrt.Select(site, hasDefault, cases...)
 //	T5 range over a map   -> range over simrt.Keys(site, m) (scheduler-chosen order)
 //
-// Mode L1 only redirects "sync" to the polling wrapper dsync (race detector runs).
+// Mode L1 redirects "sync" to the polling wrapper dsync (race detector runs) and applies
+//
+//	T6 every statement of every function body -> preceded by dsync.Stall(site)
+//
+// Stall sleeps on the fake clock (for a per-run subset of the sites, see dsync) and synchronises with
+// nobody: it is the preemption the real program can suffer at that point, for as long as it takes.
 package main
 
 import (
@@ -48,7 +53,7 @@ var (
 
 const rt = "__simrt"
 
-type counters struct{ Go, Yield, Select, MapRange, Imports, Warnings int }
+type counters struct{ Go, Yield, Select, MapRange, Imports, Stalls, Warnings int }
 
 var stats counters
 var warnings []string
@@ -259,6 +264,10 @@ func rewriteFile(fset *token.FileSet, f *ast.File, name string, info *types.Info
 		r.changed = true
 	}
 	if *mode == "L1" {
+		if addStalls(fset, f, name) {
+			addImport(f, "__dsync", "gorumsim/simrt/dsync")
+			r.changed = true
+		}
 		return r.changed
 	}
 	for _, d := range f.Decls {
@@ -279,6 +288,124 @@ func rewriteFile(fset *token.FileSet, f *ast.File, name string, info *types.Info
 		r.changed = true
 	}
 	return r.changed
+}
+
+// addStalls (T6) puts a call of dsync.Stall before every statement of every statement list
+// (function bodies, nested blocks, case and comm clause bodies). The site string says whether the
+// statement belongs to the body of a `go func(){...}()` literal ("@go"): those are preferred by
+// the per-run choice of stall sites.
+func addStalls(fset *token.FileSet, f *ast.File, file string) bool {
+	n := 0
+	var fn string
+	var stallList func(list []ast.Stmt, inGo bool) []ast.Stmt
+	var visit func(node ast.Node, inGo bool)
+	stallList = func(list []ast.Stmt, inGo bool) []ast.Stmt {
+		out := make([]ast.Stmt, 0, 2*len(list))
+		for _, st := range list {
+			visit(st, inGo)
+			p := fset.Position(st.Pos())
+			tag := ""
+			if inGo {
+				tag = "@go"
+			}
+			site := fmt.Sprintf("%s:%d:%d(%s)%s", file, p.Line, p.Column, fn, tag)
+			call := &ast.CallExpr{Fun: &ast.SelectorExpr{X: ast.NewIdent("__dsync"), Sel: ast.NewIdent("Stall")},
+				Args: []ast.Expr{&ast.BasicLit{Kind: token.STRING, Value: strconv.Quote(site)}}}
+			out = append(out, &ast.ExprStmt{X: call}, st)
+			n++
+		}
+		return out
+	}
+	visit = func(node ast.Node, inGo bool) {
+		if node == nil || isNilNode(node) {
+			return
+		}
+		switch x := node.(type) {
+		case *ast.BlockStmt:
+			if x != nil {
+				x.List = stallList(x.List, inGo)
+			}
+		case *ast.CaseClause:
+			for _, e := range x.List {
+				visit(e, inGo)
+			}
+			x.Body = stallList(x.Body, inGo)
+		case *ast.CommClause:
+			if x.Comm != nil {
+				visit(x.Comm, inGo)
+			}
+			x.Body = stallList(x.Body, inGo)
+		case *ast.SwitchStmt:
+			visit(x.Init, inGo)
+			visit(x.Tag, inGo)
+			for _, c := range x.Body.List {
+				visit(c, inGo)
+			}
+		case *ast.TypeSwitchStmt:
+			visit(x.Init, inGo)
+			visit(x.Assign, inGo)
+			for _, c := range x.Body.List {
+				visit(c, inGo)
+			}
+		case *ast.SelectStmt:
+			for _, c := range x.Body.List {
+				visit(c, inGo)
+			}
+		case *ast.GoStmt:
+			if fl, ok := x.Call.Fun.(*ast.FuncLit); ok {
+				visit(fl.Body, true)
+				for _, a := range x.Call.Args {
+					visit(a, inGo)
+				}
+				return
+			}
+			visit(x.Call, inGo)
+		case *ast.FuncLit:
+			visit(x.Body, inGo)
+		case *ast.LabeledStmt:
+			visit(x.Stmt, inGo)
+		case *ast.IfStmt:
+			visit(x.Init, inGo)
+			visit(x.Cond, inGo)
+			visit(x.Body, inGo)
+			visit(x.Else, inGo)
+		case *ast.ForStmt:
+			visit(x.Init, inGo)
+			visit(x.Cond, inGo)
+			visit(x.Post, inGo)
+			visit(x.Body, inGo)
+		case *ast.RangeStmt:
+			visit(x.X, inGo)
+			visit(x.Body, inGo)
+		default:
+			// any other statement or expression: only function literals inside it have statement lists
+			ast.Inspect(node, func(m ast.Node) bool {
+				if m == node {
+					return true
+				}
+				switch y := m.(type) {
+				case *ast.FuncLit:
+					visit(y.Body, inGo)
+					return false
+				}
+				return true
+			})
+		}
+	}
+	for _, d := range f.Decls {
+		switch x := d.(type) {
+		case *ast.FuncDecl:
+			fn = x.Name.Name
+			if x.Body != nil {
+				visit(x.Body, false)
+			}
+		default:
+			fn = "init"
+			visit(d, false)
+		}
+	}
+	stats.Stalls += n
+	return n > 0
 }
 
 func addImport(f *ast.File, name, path string) {
